@@ -121,6 +121,42 @@ impl Sweep {
             },
             embed: false,
         });
+        // runs of different blanks between words (space next to tab, NBSP, newline): the passes
+        // that merge blanks
+        fams.push(Family {
+            name: "G1/blanks".into(),
+            fes: fe_idx(&fes, |f| f.name == "plain" || f.name == "markdown" || f.name == "comment:rust"),
+            generator: Gen::Strings {
+                atoms: strs(&[" ", "\t", "a", "\n", "\u{a0}", "."]),
+                max_len: t.pick(6, 7),
+            },
+            embed: false,
+        });
+        // literals at and beyond the width of the machine types that hold their value
+        {
+            let mut v: Vec<String> = vec![];
+            for k in 1..=40usize {
+                v.push(format!("0x{}", "F".repeat(k)));
+                v.push(format!("0x1{}", "0".repeat(k)));
+                v.push(format!("{}", "9".repeat(k)));
+                v.push(format!("1{}", "0".repeat(k)));
+                v.push(format!("1.{}", "3".repeat(k)));
+                v.push(format!("{}st", "1".repeat(k)));
+                v.push(format!("1e{}", "9".repeat(k.min(5))));
+                v.push(format!("{}.5", "7".repeat(k)));
+            }
+            let mut list: Vec<String> = vec![];
+            for x in v {
+                list.push(x.clone());
+                list.push(format!("The value {x} is here."));
+            }
+            fams.push(Family {
+                name: "N/long-literals".into(),
+                fes: fe_idx(&fes, |f| f.name == "plain" || f.name == "markdown"),
+                generator: Gen::List(Arc::new(list)),
+                embed: false,
+            });
+        }
         // tabs after block markers (pulldown-cmark expands them)
         fams.push(Family {
             name: "G1/markdown-tabs".into(),
